@@ -302,6 +302,29 @@ static std::string handle(std::string const& line) {
 		else throw std::runtime_error("loss not usable with a model");
 		return o.str();
 	}
+	if (kind == 'S') {   // S sq ignore dim reuse | lens | labels | preds : SquaredLoss<Sequence,Sequence> on a batch of sequences
+		// reuse = 1: the gradient object handed to evalDerivative already holds the result of an earlier call (other data)
+		std::size_t dim = std::stoul(s[0][3]); bool reuse = s[0][4] == "1";
+		auto lens = sizes(s[1]); DV labs = nums(s[2]), preds = nums(s[3]);
+		std::vector<Sequence> L, P; std::size_t pos = 0;
+		for (std::size_t len : lens) {
+			Sequence l, q;
+			for (std::size_t j = 0; j != len; ++j) { RealVector a(dim), b(dim); for (std::size_t k = 0; k != dim; ++k) { a(k) = labs[pos]; b(k) = preds[pos]; ++pos; } l.push_back(a); q.push_back(b); }
+			L.push_back(l); P.push_back(q);
+		}
+		SquaredLoss<Sequence, Sequence> loss((std::size_t)param);
+		std::vector<Sequence> grad;
+		if (reuse) { std::vector<Sequence> L2(L), P2(L); for (auto& q : P2) for (auto& v : q) v += RealVector(dim, 1.0); SquaredLoss<Sequence, Sequence> l0(0); l0.evalDerivative(L2, P2, grad); }
+		double v = loss.eval(L, P);
+		double dv = loss.evalDerivative(L, P, grad);
+		o << "v=" << hx(v) << " dv=" << hx(dv) << " gn=" << grad.size() << " gl=";
+		for (std::size_t i = 0; i != grad.size(); ++i) { if (i) o << ","; o << grad[i].size(); }
+		o << " g=";
+		bool first = true;
+		for (auto const& q : grad) for (auto const& x : q) for (std::size_t k = 0; k != x.size(); ++k) { if (!first) o << ","; first = false; o << hx(x(k)); }
+		if (first) o << "-";
+		return o.str();
+	}
 	if (kind == 'A') {   // A invert T | sizes | labels | scores  : NegativeAUC on 1-d predictions
 		bool inv = s[0][1] == "1"; omp_set_num_threads(std::stoi(s[0][2]));
 		auto sz = sizes(s[1]); DV labs = nums(s[2]), sc = nums(s[3]);
